@@ -597,6 +597,13 @@ def run_batch(prop, tier, master, nruns, workers, wall_cap_s, selftest_n):
     for sig, e in by_sig.items():
         chosen = None
         prelude = None
+        known = match_known(prop, sig)
+        if known:
+            # a recorded, unrepaired defect: confirm it once in a clean child, report it as such, spend no time minimising
+            if any(fails_with(mod, case, sig) for case, v, before in e['cases'][:3]):
+                print(f'KNOWN-FINDING: property={prop} {known["what"]}')
+                reports.append({'sig': sig, 'known': True, 'runs': len(e['runs'])})
+                continue
         for case, v, before in e['cases']:
             if fails_with(mod, case, sig):
                 chosen = (case, v)
